@@ -3,6 +3,7 @@ package rules
 import (
 	"fmt"
 	"go/constant"
+	"go/token"
 	"go/types"
 	"os"
 	"strings"
@@ -112,13 +113,55 @@ func selfRecursiveQuiet(p *core.Program) []*ssa.Function {
 	for _, fn := range p.Funcs {
 		for _, b := range fn.Blocks {
 			for _, in := range b.Instrs {
-				if ci, ok := in.(ssa.CallInstruction); ok && ci.Common().StaticCallee() == fn {
+				if ci, ok := in.(ssa.CallInstruction); ok && core.Callee(ci.Common()) == fn {
 					out = append(out, fn)
 					goto next
 				}
 			}
 		}
 	next:
+	}
+	return out
+}
+
+// modeEnumOf: for a named integer type of the tree, the constants that the package's func(bool) T makes from the
+// switch: constant (as text) → the switch value it stands for. nil when T is not such an enumeration.
+func modeEnumOf(c *core.Ctx, t types.Type) map[string]bool {
+	nt, ok := t.(*types.Named)
+	if !ok {
+		return nil
+	}
+	if b, ok := nt.Underlying().(*types.Basic); !ok || b.Info()&types.IsInteger == 0 {
+		return nil
+	}
+	var out map[string]bool
+	for _, g := range c.P.Funcs {
+		if g.Parent() != nil || len(g.Params) != 1 || g.Signature.Recv() != nil || g.Signature.Results().Len() != 1 || !types.Identical(g.Signature.Results().At(0).Type(), t) {
+			continue
+		}
+		if b, ok := g.Params[0].Type().Underlying().(*types.Basic); !ok || b.Kind() != types.Bool {
+			continue
+		}
+		if out != nil {
+			return nil // two makers: which one the callers use is not looked at
+		}
+		out = map[string]bool{}
+		for _, on := range []bool{true, false} {
+			x := newExec(c)
+			for _, tm := range x.Run(x.NewState(g, []absint.Value{boolValue(on)}, nil)) {
+				if tm.Kind != "return" || len(tm.Ret) != 1 {
+					return nil
+				}
+				k, ok := tm.Ret[0].(absint.Const)
+				if !ok || k.V == nil {
+					return nil
+				}
+				if prev, dup := out[k.V.ExactString()]; dup && prev != on {
+					return nil
+				}
+				out[k.V.ExactString()] = on
+			}
+		}
 	}
 	return out
 }
@@ -146,8 +189,20 @@ func ruleTreePrinters(c *core.Ctx, rule string) {
 		pos := c.P.Pos(fn.Pos())
 		c.Universe(rule+" tree printers", fname+" ("+pos+")")
 		x := newExec(c)
+		// rows printed through a row-printer interface with one implementation in the tree are followed into it
+		x.Hooks.Devirt = func(in *ssa.Function, site ssa.CallInstruction) *ssa.Function {
+			var only *ssa.Function
+			for _, cal := range calleesOf(c.P, in, site, c.P.CallGraph()) {
+				if only != nil || !c.P.InScope(cal) {
+					return nil
+				}
+				only = cal
+			}
+			return only
+		}
 		var bad []string
 		seenCases := map[string]bool{}
+		modeEnum := modeEnumOf(c, fn.Params[len(fn.Params)-1].Type())
 		// the loop that walks the children is the one whose body prints
 		depthOf := func(x *absint.Exec, atom string) int {
 			// how many lookups deep is the list whose length the atom tests? 1 = the child, 2 = a grandchild
@@ -179,8 +234,25 @@ func ruleTreePrinters(c *core.Ctx, rule string) {
 		}
 		x.Hooks.Decide = func(x *absint.Exec, s *absint.State, atom string, outs []string) {
 			if !strings.HasPrefix(atom, "ord(") || !strings.Contains(atom, "len(") {
-				if strings.HasPrefix(atom, "b(§"+fn.Params[len(fn.Params)-1].Name()) && len(outs) == 1 {
+				modeName := fn.Params[len(fn.Params)-1].Name()
+				if strings.HasPrefix(atom, "b(§"+modeName) && len(outs) == 1 {
 					s.SetData("mode", outs[0])
+				}
+				// the mode as an enumeration made from the switch by one function of the package (newLastLevel(bool))
+				if modeEnum != nil && strings.HasPrefix(atom, "ord(") && strings.Contains(atom, "§"+modeName) && !strings.Contains(atom, "len(") {
+					for k, on := range modeEnum {
+						if !strings.Contains(atom, "c:"+k+",") && !strings.Contains(atom, "c:"+k+")") {
+							continue
+						}
+						eq := len(outs) == 1 && outs[0] == "="
+						ne := len(outs) > 0 && !strings.Contains(strings.Join(outs, ""), "=")
+						switch {
+						case eq:
+							s.SetData("mode", map[bool]string{true: "T", false: "F"}[on])
+						case ne && len(modeEnum) == 2:
+							s.SetData("mode", map[bool]string{true: "F", false: "T"}[on])
+						}
+					}
 				}
 				return
 			}
@@ -217,6 +289,27 @@ func ruleTreePrinters(c *core.Ctx, rule string) {
 			switch {
 			case callee == fn:
 				s.SetData("rec", "1")
+				// the depth the children are printed at is this node's depth plus one, for every child alike
+				deeper := false
+				for i, prm := range fn.Params {
+					bt, ok := prm.Type().Underlying().(*types.Basic)
+					if !ok || bt.Info()&types.IsInteger == 0 || i >= len(args) {
+						continue
+					}
+					self := absint.Sym{Name: prm.Name()}
+					one := absint.Const{V: constant.MakeInt64(1)}
+					switch args[i].Key() {
+					case self.Key():
+					case absint.NewTerm("+", self, one).Key(), absint.NewTerm("+", one, self).Key():
+						deeper = true
+					default:
+						bad = append(bad, fmt.Sprintf("%s: the children of a node are printed at depth %s, not at the node's own depth %s plus one: rows of the same level are indented differently and the report shows them under the wrong parent", pos, args[i].Key(), prm.Name()))
+						deeper = true
+					}
+				}
+				if !deeper {
+					bad = append(bad, pos+": the children of a node are printed at the node's own depth: parent and child rows cannot be told apart")
+				}
 				return x.Fresh(s, "recerr"), true
 			case isMethod(callee, core.LibPath, "TreeNode", "Keys"):
 				return absint.Sym{Name: "keys"}, true
@@ -247,6 +340,24 @@ func ruleTreePrinters(c *core.Ctx, rule string) {
 							var first absint.Value
 							if hv, ok := s.Heap[p.Loc+"[c:0]"]; ok {
 								first = hv
+							}
+							// the indentation of the row is the depth this call was given, untouched
+							for i := 0; i < 6; i++ {
+								iv, ok := s.Heap[fmt.Sprintf("%s[c:%d]", p.Loc, i)].(*absint.Iface)
+								if !ok {
+									continue
+								}
+								if rt, ok := iv.V.(*absint.Term); ok && rt.Op == "call:strings.Repeat" && len(rt.Args) == 2 {
+									isParam := false
+									for _, prm := range fn.Params {
+										if rt.Args[1].Key() == (absint.Sym{Name: prm.Name()}).Key() {
+											isParam = true
+										}
+									}
+									if !isParam {
+										bad = append(bad, fmt.Sprintf("%s: a row is indented by %s, not by the depth the traversal was called with: rows of one level get different indentations", pos, rt.Args[1].Key()))
+									}
+								}
 							}
 							if iv, ok := first.(*absint.Iface); ok {
 								loc := locOf(x, iv.V)
@@ -477,6 +588,7 @@ func ruleFirstChild(c *core.Ctx, rule string) bool {
 		return false
 	}
 	recv := fn.Params[0].Name()
+	rangedChild := returnsRangedChild(fn)
 	for _, tm := range terms {
 		if tm.Kind != "return" || len(tm.Ret) != 1 {
 			return false
@@ -485,6 +597,9 @@ func ruleFirstChild(c *core.Ctx, rule string) bool {
 			continue
 		}
 		t, ok := tm.Ret[0].(*absint.Term)
+		if !ok && rangedChild {
+			continue // a value the range over the receiver's own Children produced (a scan for the smallest key)
+		}
 		if !ok || t.Op != "lookup" || len(t.Args) != 2 || locOf(x, t.Args[0]) != "L:§"+recv+"·Children" {
 			c.Violate(rule, core.FuncName(fn), "first-child", c.P.Pos(tm.Pos), "FirstChild returns "+tm.Ret[0].Key()+", which is not one of the node's own children: the collapsed balance would print a foreign row", nil)
 			return false
@@ -492,6 +607,57 @@ func ruleFirstChild(c *core.Ctx, rule string) bool {
 	}
 	c.Discharge(rule, core.FuncName(fn), "first-child", c.P.Pos(fn.Pos()), "returns nil or an element of the receiver's Children")
 	return true
+}
+
+// returnsRangedChild: every value the method returns is nil or the value variable of a range over the receiver's own
+// Children map (possibly carried through the variables of a scan).
+func returnsRangedChild(fn *ssa.Function) bool {
+	recv := fn.Params[0]
+	seen := map[ssa.Value]bool{}
+	var ok func(v ssa.Value) bool
+	ok = func(v ssa.Value) bool {
+		if seen[v] {
+			return true
+		}
+		seen[v] = true
+		switch t := v.(type) {
+		case *ssa.Const:
+			return t.IsNil()
+		case *ssa.Phi:
+			for _, e := range t.Edges {
+				if !ok(e) {
+					return false
+				}
+			}
+			return true
+		case *ssa.Extract:
+			nx, isNext := t.Tuple.(*ssa.Next)
+			if !isNext || t.Index != 2 {
+				return false
+			}
+			rg, isRange := nx.Iter.(*ssa.Range)
+			if !isRange {
+				return false
+			}
+			ld, isLoad := rg.X.(*ssa.UnOp)
+			if !isLoad || ld.Op != token.MUL {
+				return false
+			}
+			fa, isFA := ld.X.(*ssa.FieldAddr)
+			return isFA && fa.X == ssa.Value(recv) && fieldName(fa.X.Type(), fa.Field) == "Children"
+		}
+		return false
+	}
+	n := 0
+	for _, b := range fn.Blocks {
+		if ret, isRet := b.Instrs[len(b.Instrs)-1].(*ssa.Return); isRet && len(ret.Results) == 1 {
+			n++
+			if !ok(ret.Results[0]) {
+				return false
+			}
+		}
+	}
+	return n > 0
 }
 
 // lookupDepth: how many map lookups below the printer's node the location is (1 = a child, 2 = a grandchild).
@@ -517,14 +683,16 @@ func keysOf(m map[string]bool) []string {
 func init() {
 	register(&Property{
 		ID:    "C03",
-		Rules: []string{"C03-R1", "C03-R2", "C03-R3", "C03-R5", "C03-R6", "C03-R7", "C03-R8", "C03-R9", "C03-R10", "C01-R4", "C01-R5", "C02-R5"},
+		Rules: []string{"C03-R1", "C03-R2", "C03-R3", "C03-R5", "C03-R6", "C03-R7", "C03-R8", "C03-R9", "C03-R10", "C01-R4", "C01-R5", "C02-R5", "C07-R6", "C15-R13"},
 		Explain: "Decides the structure that makes the balance tree conserve quantities: C03-R1 every range over TreeNode.Children is collect-then-sort on the name (siblings sorted, no order-dependent accumulation); " +
 			"C03-R2 chain collapsing propagates the empty 'forks below' sentinel; C03-R3 the single-element reporter expands like every other site and feeds tree and grand total in the same branches (C07-R1 restricted to balance); " +
 			"C03-R5 every printing traversal prints exactly one row per child with the child's own Total and skips a subtree only for a leaf, a joined chain, or collapse-last on a single leaf grandchild; " +
 			"C03-R6 TreeNode.Add links a new name and accumulates into an existing one; C03-R8 AddDeep gives every segment of the split name a node with the element's value, whatever the value or the segment; C03-R7 a printed grand total is a scalar Process feeds together with the tree; C03-R10 every row format of package balance is built from constants (a path is an argument, never part of the format); C03-R9 the balance reporter selector returns the element-filtering reporter exactly when a single element is requested, whatever the collapse switches; " +
-			"C01-R4/R5 and C02-R5 (shared) the resolved lists and the per-day food lists the balance sums over are merged by name, one slot per name, nothing dropped.",
+			"C01-R4/R5 and C02-R5 (shared) the resolved lists and the per-day food lists the balance sums over are merged by name, one slot per name, nothing dropped. Also: C03-R5 requires the depth handed to the children to be the node's own depth plus one and every row to be indented by the depth the call was given; display modes kept as an enumeration made from the switch by one function are mapped back to the switch; rows printed through a row-printer interface with one implementation are followed into it. Shared: C07-R6, C15-R13.",
 		NotDecided: "conservation itself (parent = own + children is a fact about float sums over all trees), equality of leaf sets between display modes, the prefix-of-another-name case",
 		Run: func(c *core.Ctx) {
+			ruleNoFlagSkipped(c, "C15-R13")
+			ruleEveryEntrySeen(c, "C07-R6")
 			RuleMapRanges(c, "C03-R1", func(s mapRangeSite) bool {
 				t := s.pkg.TypesInfo.Types[s.stmt.X].Type.String()
 				return strings.Contains(t, "TreeNode")
@@ -573,6 +741,39 @@ func ruleAddDeep(c *core.Ctx, rule string) {
 		case callee != nil && callee.String() == "strings.Split":
 			s.SetData("split", "1")
 			return absint.Sym{Name: "segments"}, true
+		case callee != nil && callee != fn && len(s.Frames) > 0 && s.Frames[len(s.Frames)-1].Fn == callee && core.FnPkgPath(callee) == core.LibPath:
+			// the walk over the segments written as a recursion: a helper that adds a node for the first segment and
+			// calls itself on that node with the rest of the path and the same value
+			iterations++
+			if s.Data["added"] != "1" {
+				bad = append(bad, "the helper calls itself for the rest of the path without having added a node for the current segment")
+			}
+			s.SetData("added", "")
+			if len(args) > 0 && !absint.Mentions(args[0], "child") && !strings.Contains(args[0].Key(), "child") {
+				bad = append(bad, "the rest of the path is added below "+args[0].Key()+", not below the node Add returned for the current segment")
+			}
+			top := s.Frames[len(s.Frames)-1]
+			for i, prm := range callee.Params {
+				if i >= len(args) || i == 0 {
+					continue
+				}
+				var self absint.Value = absint.Sym{Name: prm.Name()}
+				if pv, ok := top.Env[prm]; ok {
+					self = pv // what this activation was given
+				}
+				switch prm.Type().Underlying().(type) {
+				case *types.Slice:
+					t, ok := args[i].(*absint.Term)
+					if !ok || t.Op != "slice" || len(t.Args) != 3 || t.Args[0].Key() != self.Key() || t.Args[1].Key() != "c:1" || (t.Args[2].Key() != "zero" && !isNilConst(t.Args[2])) {
+						bad = append(bad, "the helper calls itself with "+args[i].Key()+", not with the path without its first segment: a segment is skipped or visited twice")
+					}
+				case *types.Basic:
+					if args[i].Key() != self.Key() {
+						bad = append(bad, "the helper hands "+args[i].Key()+" down the path, not the amount it was given")
+					}
+				}
+			}
+			return absint.Const{}, true
 		case isMethod(callee, core.LibPath, "TreeNode", "Add") && len(args) == 2:
 			s.SetData("added", "1")
 			// the node added carries the element's own value
